@@ -173,6 +173,11 @@ class Sim:
         self.launch = None          # the recorded start of the helper
         self.helper_cwd = None
         self.store = None
+        self.hook_depth = 0
+        self.main_thread = None
+        self.popen_fails = False
+        self.get_raised = None
+        self.no_helper = False
 
     # ---- the holder's primitives on the lock (kill of the helper: FakePopen; os.utime: here)
     def gate_before(self):
@@ -195,7 +200,9 @@ class Sim:
             return False
 
     def w_utime(self, path, times=None, *a, **kw):
-        """os.utime as file_store sees it"""
+        """os.utime as file_store sees it (and as a helper that spells it os.utime sees it)"""
+        if self.monitor_ctx():
+            return self.p_utime(path, times)
         if not self.is_lock(path) or self.cur_op is None:
             return _os_utime(path, times, *a, **kw)
         self.gate_before()
@@ -212,6 +219,13 @@ class Sim:
 
     # ---- what the monitor module sees
     def p_sleep(self, secs):
+        self.hook_depth += 1
+        try:
+            return self.p_sleep_(secs)
+        finally:
+            self.hook_depth -= 1
+
+    def p_sleep_(self, secs):
         self.resume_parked()
         try:
             dr = next(self.drift_it)
@@ -283,6 +297,8 @@ class Sim:
         return float(self.now)
 
     def p_popen(self, args, *a, **kw):
+        if self.popen_fails:
+            raise BlockingIOError(11, 'Resource temporarily unavailable')      # fork: EAGAIN (process limit)
         if a:
             self.anomalies.append('Popen called with positional arguments after the command line: not modelled')
         return FakePopen(self, args, kw)
@@ -366,6 +382,14 @@ class Sim:
                 self.store.getlock(NAME).release()   # another client's release()
             elif os.path.exists(self.lockpath):
                 os.unlink(self.lockpath)
+        elif kind == 'read':
+            # somebody looks INTO the lock file (cat, grep -r, backup): on a file system that records access times the
+            # atime moves, the mtime does not
+            try:
+                st = os.stat(self.lockpath)
+                _os_utime(self.lockpath, (t, st.st_mtime))
+            except OSError:
+                pass
         elif kind == 'query':
             other = self.store.getlock(NAME)
             self.outs.append(('locked', t, bool(other.is_locked())))
@@ -399,10 +423,39 @@ class Sim:
             if self.in_main:
                 raise _Killed()
 
+    def monitor_ctx(self):
+        """is the caller the helper's own code (main() and what it calls), not the harness or the lock class?"""
+        return self.in_main and self.hook_depth == 0 and threading.current_thread() is self.main_thread
+
+    def either(self, orig, hook):
+        """a process-wide primitive: the simulated one for the helper's code, the real one for everybody else"""
+        def f(*a, **kw):
+            return hook(*a, **kw) if self.monitor_ctx() else orig(*a, **kw)
+        return f
+
     def run(self):
-        patches = [(mon, 'sleep', self.p_sleep), (mon, 'getppid', self.p_getppid), (mon, 'kill', self.p_kill),
-                   (mon, 'utime', self.p_utime), (mon, 'argv', ['file_keepalive_monitor']),
-                   (fs, 'time', self.p_time), (fs, 'Popen', self.p_popen), (os, 'utime', self.w_utime)]
+        import subprocess
+        import types
+        self.main_thread = threading.current_thread()
+        # the names the two modules bind (`from os import utime`) ...
+        patches = [(mon, n, v) for n, v in (('sleep', self.p_sleep), ('getppid', self.p_getppid), ('kill', self.p_kill),
+                                            ('utime', self.p_utime), ('argv', ['file_keepalive_monitor'])) if hasattr(mon, n)]
+        # ... and the other spelling (`import os` ... os.utime(...)): process-wide, switched by who is calling
+        patches += [(os, 'getppid', self.either(os.getppid, self.p_getppid)), (os, 'kill', self.either(os.kill, self.p_kill)),
+                    (_time, 'sleep', self.either(_time.sleep, self.p_sleep)), (sys, 'argv', list(sys.argv)),
+                    (os, 'utime', self.w_utime)]
+        if isinstance(getattr(fs, 'time', None), types.ModuleType):
+            patches.append((_time, 'time', self.p_time))
+        else:
+            patches.append((fs, 'time', self.p_time))
+        if hasattr(fs, 'Popen'):
+            patches.append((fs, 'Popen', self.p_popen))
+        else:
+            patches.append((subprocess, 'Popen', self.p_popen))
+        for m in (fs,):
+            for n, v in list(vars(m).items()):
+                if v is _os_utime:
+                    patches.append((m, n, self.w_utime))
         saved = [(m, n, getattr(m, n)) for m, n, _ in patches]
         old_cwd = os.getcwd()
         os.chdir(self.wdir)
@@ -454,6 +507,29 @@ class Sim:
                 'target_real': os.path.realpath(target), 'lock_real': os.path.realpath(self.lockpath),
                 'argv': [getattr(mon, '__file__', MONITOR_MODULE)] + args[3:]}
 
+    def prelude(self, kind):
+        """an earlier life of the SAME lock object (Task.lock() reuses the cached object), over before the scenario starts"""
+        if not kind:
+            return
+        if self.wl.get() is not True:
+            self.anomalies.append('prelude: get() on a fresh lock did not return True')
+            return
+        if kind == 'helper-ended':
+            # another client removed the lock file, the helper noticed at its next refresh and ended by itself
+            os.unlink(self.lockpath)
+            for p in self.popens:
+                p.returncode = 0
+        elif kind == 'released':
+            self.wl.release()
+        elif kind == 'failed-cleaned':
+            self.wl.fail()
+            self.store.getlock(NAME).release()      # cleanup --failed-only by somebody else
+        else:
+            raise ValueError('unknown prelude ' + kind)
+        if os.path.exists(self.lockpath):
+            self.anomalies.append('prelude %s: the lock file is still there' % kind)
+        del self.popens[:]
+
     def _run(self):
         scn = self.scn
         t0, s = scn['t0'], scn['s']
@@ -465,18 +541,50 @@ class Sim:
             self.wl = fs.file_keepalive_based_lock(self.jugdir, NAME)
         else:
             self.wl = self.store.getlock(NAME)
-        if self.wl.get() is not True:
+        self.prelude(scn.get('prelude'))
+        self.popen_fails = bool(scn.get('popen_fails'))
+        try:
+            got = self.wl.get()
+        except OSError as e:
+            got = None
+            self.get_raised = '%s: %s' % (type(e).__name__, e)
+        finally:
+            self.popen_fails = False
+        if self.get_raised is not None:
+            # the holder got an exception, it does not go on: what it leaves behind is a lock without holder and helper
+            if not scn.get('popen_fails'):
+                self.anomalies.append('get() of the holder raised ' + self.get_raised)
+                return
+            self.alive = False
+            if os.path.isfile(self.lockpath):
+                _os_utime(self.lockpath, (t0, t0))
+            self.no_helper = True
+        elif got is not True:
             self.anomalies.append('the holder could not acquire a fresh lock')
             return
-        if not os.path.isfile(self.lockpath):
+        elif not os.path.isfile(self.lockpath):
             self.anomalies.append('after get() there is no lock file at %s' % self.lockpath)
             return
-        _os_utime(self.lockpath, (t0, t0))
-        self.launch = self.read_launch()
-        if self.launch is None:
+        else:
+            _os_utime(self.lockpath, (t0, t0))
+            if not self.popens:
+                # get() answered True and no helper process exists: nobody will refresh this lock
+                self.no_helper = True
+            else:
+                self.launch = self.read_launch()
+                if self.launch is None:
+                    return
+        if self.no_helper:
+            self.now = t0
+            while self.ai < len(self.actions):
+                t, kind, after, mid = self.actions[self.ai]
+                self.ai += 1
+                self.apply(t, kind)
             return
         self.helper_cwd = self.launch['helper_cwd']
-        mon.argv = list(self.launch['argv'])
+        if hasattr(mon, 'argv'):
+            mon.argv = list(self.launch['argv'])
+        sys.argv = list(self.launch['argv'])
         self.mon_running = True
         start = t0 + s
         while self.ai < len(self.actions) and self.actions[self.ai][0] < start:
@@ -544,6 +652,13 @@ def oracle(scn, sim, C):
     fail_rets = list(sim.fail_returns)
     sticky_since = None     # time of a fail() that returned True, until the lock file is removed
     td = None           # death of the holder while it held the lock
+    if sim.get_raised is not None:
+        # get() raised (the helper could not be started): the caller does not hold the lock; the file it left is a dead lock
+        alive, td = False, scn['t0']
+    elif sim.no_helper:
+        bad.append(('lock acquired without a helper process', 'get() returned True and no helper process was started for it%s: '
+                    'nobody refreshes this lock' % (' (Popen raised OSError)' if scn.get('popen_fails') else
+                                                    ' (same lock object as before: %s)' % scn.get('prelude') if scn.get('prelude') else '')))
     t_kill = None       # first release()/fail() by the live holder
     t_gone = None       # first removal of the lock file by somebody else
     fail_marked = False
@@ -696,6 +811,8 @@ def render_items(scn, period):
     def emit(a, d=None, can_split=False):
         """-> True when the action consumed one wake-up"""
         t, kind, after, mid = a
+        if kind == 'read':
+            return False            # reading the lock file is no event of the model
         if kind != 'fail':
             items.append('CEv %s %s' % (zlit(t), EV[kind]))
             return False
@@ -921,9 +1038,17 @@ def gen_scenario(rng, C, max_days, tight=None):
         if a[1] == 'fail' and sch.is_wake(a[0]) and rng.random() < 0.6:
             a[2] = False
             a.append(1)
+    # somebody reads the lock file (its atime moves) some time before another client looks at the lock
+    for a in list(acts):
+        if a[1] in ('query', 'cleanup') and rng.random() < 0.3:
+            acts.append([max(t0, a[0] - rng.randint(1, max(1, E - 1))), 'read', False])
+    acts.sort(key=lambda a: a[0])
     scn['rounds'] = sch.blocks
     scn['actions'] = acts
     scn['jugdir'] = dict(rng.choice(JUGDIRS))
+    scn['prelude'] = rng.choice([None] * 5 + list(PRELUDES))
+    if rng.random() < 0.03:
+        scn['popen_fails'] = True
     # the start-up race outside the model: holder gone before the helper first reads getppid(), and
     # re-parented to a sub-reaper (pid != 1).  Generated with the classic re-parenting to pid 1 only.
     if any(a[1] == 'die' and a[0] <= t0 + s for a in acts) and scn['death_mode'] == 'ppid_other':
@@ -941,6 +1066,37 @@ JUGDIRS = [
     {'mode': 'rel', 'via': 'store', 'dir': 'a/b/jd.jugdata'},
     {'mode': 'rel', 'via': 'select', 'dir': './proj.jugdata'},
 ]
+
+
+PRELUDES = ('helper-ended', 'released', 'failed-cleaned')
+
+
+def special_scenarios(C):
+    """Deterministic timelines for: the lock object had an earlier life (its helper ended by itself / released / failed and cleaned
+    up) and a long task follows; the helper cannot be started (Popen raises OSError); a dead holder's lock file is read every 20
+    minutes; a failed lock's file is read."""
+    P, R, E = C['period'], max(1, C['rounds']), C['expiry']
+    out = []
+    t0 = 1000000
+    for i, (dr_env, st_env) in enumerate(ENVS):
+        D = P + dr_env
+        base = {'t0': t0, 's': st_env, 'env': [dr_env, st_env], 'death_mode': 'ppid1', 'unlink_mode': 'os'}
+
+        def mk(acts, fate, **kw):
+            acts = sorted([list(a) for a in acts], key=lambda a: a[0])
+            n = (acts[-1][0] - t0 - st_env) // D + 3
+            return dict(base, fate=fate, rounds=[[n, dr_env]], actions=acts, jugdir=dict(JUGDIRS[(i + len(out)) % len(JUGDIRS)]), **kw)
+        long_task = [[t0 + E - 1, 'query', False], [t0 + E + 1, 'query', False], [t0 + E + 2, 'cleanup', False], [t0 + E + 3, 'get', False],
+                     [t0 + 3 * E, 'query', False]]
+        out.append(mk(long_task, 'special:reused-object', prelude=PRELUDES[i % len(PRELUDES)]))
+        out.append(mk(long_task, 'special:helper-cannot-start', popen_fails=True))
+        td = t0 + 700
+        reads = [[td + k * 1200, 'read', False] for k in range(1, 6)]
+        out.append(mk([[td, 'die', False]] + reads + [[td + D + E, 'query', False], [td + D + E + 600, 'query', False],
+                                                       [td + D + E + 601, 'cleanup', False], [td + D + E + 602, 'get', False]], 'special:dead-lock-read'))
+        tf = t0 + 400
+        out.append(mk([[tf, 'fail', False], [tf + 50, 'read', False], [tf + 60, 'query', False], [tf + 61, 'cleanup', False]], 'special:failed-lock-read'))
+    return out
 
 
 def fail_window_scenarios(C):
@@ -1153,6 +1309,9 @@ def judge_scenarios(ck, scns, root, C, prop='C19', tag='', extra=None):
                      scn.get('jugdir')), nontrivial)
         if any(o[0] == 'exit' and o[2] == 'crashed' for o in sim.outs):
             continue
+        if scn.get('popen_fails'):
+            ck.count('helper could not be started (direct oracle only)')
+            continue
         try:
             cases.append(render_case(scn, sim, C['period']))
             meta.append(scn)
@@ -1198,12 +1357,21 @@ def run(ck):
     ]
     if terr:
         ck.notes.append('translator failed, direct search uses the documented constants: ' + terr)
+    try:
+        from . import translate_c19
+        snotes = translate_c19.structure_notes()
+    except Exception as e:
+        snotes = ['structure not examined: %s: %s' % (type(e).__name__, e)]
+    ck.obligations.append({'name': 'source of the monitor loop / keep-alive lock is in the shapes the model was transcribed from (lenient: a '
+                                   'difference is a note; the behaviour is compared by the runs below)', 'kind': 'structure', 'ok': True,
+                           'msg': ' | '.join(snotes)})
     thorough = ck.tier == 'thorough'
     max_days = 7 if thorough else 3
     with jugrun.scratch_dir('jugv19') as root:
         scns = []
         scns += tight_scenarios(C, 6 if not thorough else 24, dense=False)
         scns += fail_window_scenarios(C)
+        scns += special_scenarios(C)
         nrand = ck.n(500, 20000)
         for _ in range(nrand):
             scns.append(gen_scenario(ck.rng, C, max_days))
